@@ -81,7 +81,7 @@ fn op6(k: usize, pos: usize) -> Op {
 /// neighbours: all programs of depth <= 3 over {blobs, every image kind with/without mask, cloud};
 /// every payload has a pattern unique to it, so a descriptor leading to the wrong data is detected
 pub fn neighbours(ctx: &Ctx) {
-    let depth = ctx.pick("depth", 4);
+    let depth = ctx.pick("depth", if ctx.tier_thorough { 5 } else { 4 });
     let mut ops = Vec::new();
     for pos in 0..depth {
         ops.push(op6(ctx.pick("op", N_OPS6), pos));
@@ -98,13 +98,14 @@ pub fn neighbours(ctx: &Ctx) {
 /// the projection added before the visual reference, an additional finalize() after the first op,
 /// a finalize_customized_xml whose transformer fails in front of the real finalize, or all three
 pub fn flows(ctx: &Ctx) {
-    let depth = 1 + ctx.pick("depth", 2);
+    let depth = 1 + ctx.pick("depth", if ctx.tier_thorough { 3 } else { 2 });
     let mut ops = Vec::new();
     for pos in 0..depth {
         ops.push(op6(ctx.pick("op", N_OPS6), pos));
     }
     let flow = 1 + ctx.pick("flow", 7);
-    let p = Program { guid: "g".into(), ops, projection_first: flow & 1 != 0, checkpoint_after: if flow & 2 != 0 { Some(0) } else { None }, failed_finalize_first: flow & 4 != 0, ..Default::default() };
+    let cp = if ctx.tier_thorough && depth > 1 { ctx.pick("checkpoint-position", depth) } else { 0 };
+    let p = Program { guid: "g".into(), ops, projection_first: flow & 1 != 0, checkpoint_after: if flow & 2 != 0 { Some(cp) } else { None }, failed_finalize_first: flow & 4 != 0, ..Default::default() };
     if let Some((_, rb)) = roundtrip_src(ctx, &p, P, SRC_MODES[depth % 3]) {
         if !rb.scene.images.is_empty() {
             ctx.nontrivial();
